@@ -12,7 +12,7 @@
    Packet ids come from data/packetid (not translated by gotrans): they are written here by hand and
    compared with the Go constants by the `const` lines of the correspondence run. *)
 From Coq Require Import List Arith NArith ZArith Bool.
-From GoMC Require Import Base.Bytes Gen.Consts Model.C05.
+From GoMC Require Import Base.Bytes Base.Dec Gen.Consts Model.C05.
 Import ListNotations.
 Open Scope Z_scope.
 
@@ -221,7 +221,7 @@ Record bcfg := {
   bc_host : list N; bc_port : N;
   bc_plugin : list N -> list N -> option (option (list N));   (* LoginPlugin[channel](data): None = no handler, Some None = handler error *)
   bc_cookie : list N -> option (list N);          (* c.Cookies[key] *)
-  bc_registry_known : list N -> bool;             (* c.Registries.Registry(id) != nil *)
+  bc_registry : list N -> list N -> option bool;  (* c.Registries.Registry(id): None = nil (unknown id); Some ok = its ReadFrom(content) succeeded *)
   bc_time : Z }.                                  (* startTime.Unix() of the ping *)
 
 Record bot := { b_ph : bphase; b_thr : Z; b_name : list N; b_uuid : list N }.
@@ -298,8 +298,13 @@ Definition bot_config (c : bcfg) (b : bot) (f : frame) : bot :=
   else if id =? cbConfigResetChat then b
   else if id =? cbConfigRegistryData then
     match f_fields f with
-    | FString rid :: _ => if bc_registry_known c rid then b_set b BUnmodelled else b_set b (BFailed stRegistry)
-    | _ => b_set b (BFailed stRegistry)          (* the bytes do not start with a known registry id *)
+    | FString rid :: rest =>
+        match bc_registry c rid (match rest with FRaw d :: _ => d | _ => [] end) with
+        | Some true => b                         (* the registry now holds the entries read: next iteration *)
+        | Some false => b_set b (BFailed stRegistry)   (* "failed to read registry" *)
+        | None => b_set b (BFailed stRegistry)   (* "unknown registry" *)
+        end
+    | _ => b_set b (BFailed stRegistry)          (* the bytes do not start with an identifier *)
     end
   else if id =? cbConfigServerLinks then b
   else if (8 <=? id) && (id <=? 15) then b_set b BUnmodelled
@@ -353,13 +358,14 @@ Definition scStatusErr : N := 7.
 (* how the server's ConfigHandler behaves *)
 Inductive cfgmode :=
 | CfgFinishOnly       (* writes FinishConfiguration and reads the acknowledgement *)
-| CfgStock.           (* server.Configurations: RegistryData(pk.NBT(registries)), FinishConfiguration *)
+| CfgStock.           (* server.Configurations: one RegistryData per registry, FinishConfiguration, wait for the acknowledgement *)
 
 Inductive sphase :=
 | SHandshake | SLoginStart
 | SCompress                                     (* about to write LoginCompression, then SetThreshold *)
 | SSend (id : Z) (fs : list field) (next : sphase)
 | SAwaitAck | SConfAck
+| SConfWait                                     (* Configurations.AcceptConfig: reading until the finish acknowledgement *)
 | SStatus (more : nat)
 | SJoined                                       (* AcceptPlayer(name, id, .., protocol, conn) called *)
 | SClosed (why : N).
@@ -368,7 +374,7 @@ Record scfg := {
   sc_threshold : Z;                               (* MojangLoginHandler.Threshold *)
   sc_checker : option (list N -> list N -> Z -> option (list N));  (* LoginChecker: Some reason = refused *)
   sc_cfg : cfgmode;
-  sc_registry_blob : list N;                      (* NBT image of Configurations.Registries *)
+  sc_registries : list (list N * list N);         (* Configurations.Registries: (registry id, bytes of Registry.WriteTo) per tagged field, in struct order *)
   sc_status : Z -> option (list N) }.             (* listResp(clientProtocol): JSON or marshal error *)
 
 (* what AcceptConn writes as the reason of a login disconnect: chat.JsonMessage(loginErr.reason)
@@ -384,10 +390,16 @@ Definition s_recv (s : srv) (h : srv -> frame -> srv) (f : frame) : srv :=
 Section Server.
 Variable offline_uuid : list N -> list N.        (* offline.NameToUUID: MD5 with version bits, uninterpreted *)
 
+(* the loop over the tagged fields of Registries: one packet = Identifier(tag) ++ registry *)
+Fixpoint reg_chain (rs : list (list N * list N)) (k : sphase) : sphase :=
+  match rs with
+  | [] => k
+  | (rid, content) :: t => SSend cbConfigRegistryData [FString rid; FRaw content] (reg_chain t k)
+  end.
 Definition cfg_phase (c : scfg) : sphase :=
   match sc_cfg c with
   | CfgFinishOnly => SSend cbConfigFinish [] SConfAck
-  | CfgStock => SSend cbConfigRegistryData [FNbt (sc_registry_blob c)] (SSend cbConfigFinish [] SJoined)
+  | CfgStock => reg_chain (sc_registries c) (SSend cbConfigFinish [] SConfWait)
   end.
 (* after the optional compression step: LoginChecker, then LoginSuccess *)
 Definition after_compress (c : scfg) (s : srv) : sphase :=
@@ -452,6 +464,11 @@ Definition srv_act (c : scfg) (s : srv) : action srv :=
       (* the handler's error, if any, is dropped by AcceptConn (`s.AcceptConfig(conn)` without
          assignment): AcceptPlayer is called whatever was read *)
       ARecv (fun f => s_set s SJoined)
+  | SConfWait =>
+      (* for { ReadPacket; if p.ID == ServerboundConfigFinishConfiguration { return nil } }: other
+         serverbound configuration packets are skipped; a read error is returned (and dropped by
+         AcceptConn, which then calls AcceptPlayer on a dead connection - not reachable here) *)
+      ARecv (s_recv s (fun s f => if f_id f =? sbConfigFinish then s_set s SJoined else s_set s SConfWait))
   | SStatus O => AHalt
   | SStatus (S more) => ARecv (s_recv s (srv_status c more))
   | SJoined => AHalt
@@ -656,3 +673,34 @@ Fixpoint game (e : events) (m : mode) (ps : list pkt) : list call * outcome :=
   end.
 Definition handle_game (e : events) (ps : list pkt) : list call * outcome := game e MNormal ps.
 End Dispatch.
+
+(* ---------------------------------------------------------------- Part 4: a registry on the wire
+   registry/network.go: Registry.WriteTo (entry count, then per entry in id order: key as Identifier,
+   Boolean true, the network NBT of the value) and Registry.ReadFrom (count; per entry key, hasData,
+   optional NBT; an entry without data is not Put).  The NBT codec of the value type is external. *)
+Definition reg_entry_bytes (e : list N * list N) : list N :=
+  write32 (Z.of_N (lenN (fst e))) ++ fst e ++ 1%N :: snd e.
+(* es: (key, NBT image of the value) in id order *)
+Definition reg_write (es : list (list N * list N)) : list N :=
+  write32 (Z.of_N (lenN es)) ++ concat (map reg_entry_bytes es).
+
+Section RegistryRead.
+Variable V : Type.
+Variable nbt_dec : dec V.                       (* pk.NBTField{V: &data, AllowUnknownFields: true}.ReadFrom *)
+
+(* pk.Identifier.ReadFrom = String.ReadFrom *)
+Definition r_ident : dec (list N) :=
+  l <- read32 ;;
+  if fst l <? 0 then Fail 3%N else ReadFull (Z.to_N (fst l)) (fun bs => Ret bs).
+Fixpoint reg_entries (n : nat) : dec (list (list N * V)) :=
+  match n with
+  | O => Ret []
+  | S k =>
+      key <- r_ident ;;
+      has <- ReadByte (fun b => Ret (negb (b =? 0)%N)) ;;
+      if has : bool then (v <- nbt_dec ;; t <- reg_entries k ;; Ret ((key, v) :: t))
+      else reg_entries k
+  end.
+(* `for i := 0; i < int(length); i++`: a negative count means no iteration *)
+Definition reg_read : dec (list (list N * V)) := c <- read32 ;; reg_entries (Z.to_nat (fst c)).
+End RegistryRead.
